@@ -420,6 +420,7 @@ func TestVerifC05(t *testing.T) {
 	if thorough {
 		nd = 12000
 	}
+	c05Bubble(t, func() { c05DialPeerStaleExit(out) })
 	for i := 0; i < nd; i++ {
 		size := 6 + r.Intn(30)
 		c05Bubble(t, func() { c05DialPeerRandom(out, r, size) })
